@@ -88,6 +88,9 @@ class C12(P.Property):
                                      dict(lo=0.01, hi=0.3, tail=0.1, seg=2),
                                      dict(lo=0.0, hi=0.0), dict(lo=0.0, hi=0.0, quantum=0.001), dict(lo=0.0005, hi=0.004, quantum=0.002)]),  # no latency / busy loop -- events tie, only the loop's FIFO order decides
                      skew=rng.choice([1.0, 1.0, 0.5, 2.0]), bufsize=rng.choice([8192, 8192, 16]), gc_every=rng.choice([0, 0, 0, 1, 2]))
+        if rng.random() < 0.2:
+            # the URL path is the client's choice (the server URI is a client setting); it names no other service
+            knobs["paths"] = {n: rng.choice(["", "/", "/staging", "/v2/sse"]) for n in "ABC"}
         if rng.random() < 0.1:
             # injected system-call failure: from this step on, the server's next read of the state file fails once (EMFILE)
             knobs["read_fault"] = {"step": rng.randrange(len(steps)), "skip": rng.choice([0, 1, 1, 2, 3])}
@@ -171,7 +174,7 @@ class C12(P.Property):
                     if a is None:
                         a = actors[n] = fe.RawActor(run, n, SID)
                         run.ev("c_do", n, "open")
-                        await a.open()
+                        await a.open(path=(knobs.get("paths") or {}).get(n, ""))
                 elif a is None or not a.opened:
                     pass
                 elif do == "config":
@@ -383,7 +386,7 @@ class C12(P.Property):
     # ------------------------------------------------------------------ minimisation
     def simplifications(self, plan):
         k = plan["knobs"]
-        for key, val in (("skew", 1.0), ("bufsize", 8192), ("scheme", "CJJ14.PiBas"), ("net", dict(lo=0.01, hi=0.01)), ("gc_every", 0), ("big", False), ("read_fault", None)):
+        for key, val in (("skew", 1.0), ("bufsize", 8192), ("scheme", "CJJ14.PiBas"), ("net", dict(lo=0.01, hi=0.01)), ("gc_every", 0), ("big", False), ("read_fault", None), ("paths", None)):
             if k.get(key) != val:
                 yield dict(plan, knobs=dict(k, **{key: val}))
         if k["init_state"] > 0:
